@@ -24,7 +24,7 @@ RULE = (
     "mixed 1e-8..1e3; constant / stepwise / random-walk schedules). Non-trivial = at least 3 rows "
     "with a significant Laplacian constrain the mesh constant; distinct = descriptor hash."
 )
-MIN_NONTRIVIAL = {"quick": 120, "thorough": 9000}
+MIN_NONTRIVIAL = {"quick": 90, "thorough": 8000}
 SHARDS = {"quick": 4, "thorough": 16}
 GENERATOR = {"nx": [3, 4, 5, 10, 30, 80, 200, 400], "nt": "2..300", "t_end": "1e-3..30 (scaled time)", "p_f/p_i": [0.01, 0.1, 0.3, 0.5, 0.7, 0.9, 0.99, 0.999, 1.0, "random"]}
 ASSUMPTIONS = [
